@@ -43,10 +43,10 @@ CHECKS = {
   text="Decided for every assignment within enumerated (weights, position-window) families: both soft-constraint generators price a sequence by the sum of its instruction weights up to a constant; the weights are the instruction costs of the chosen criterion (independent tables). Bounded: on small specifications soft(M) - cost(decode(M)) is constant over all enumerated models, the hard constraints are satisfiable, and the optimum has the same true cost under 5-9 option sets and equals the brute-force optimum over all realizing sequences within the bound.",
   note="The universal optimum-preservation claim (bounds and pruning never remove all optimal programs, for every specification) is NOT decided: it quantifies over all realizing sequences; only bounded instances are checked. Costs of dynamic-gas opcodes are taken from the tool's own figure."),
  'C08': dict(
-  technique="contract-based deductive verification: postconditions on improves_criterion, block_has_been_optimized, compare_best_block, update_*_count and on the item/block cost functions against independent cost tables; VCs from the real AST, z3",
+  technique="contract-based deductive verification: postconditions on improves_criterion, block_has_been_optimized, compare_best_block, update_*_count and on the item/block cost functions against independent cost tables (VCs from the real AST, z3), plus a bounded end-to-end stand-in: the whole tool on corpus blocks under the three criteria with gas measured by an independent model (warm/cold accesses on concrete keys, storage write classes, memory expansion)",
   category='proof', ref='DESIGN.md section 4 (C08)',
-  text="For all cost figures: a replacement is accepted only if it is no costlier in the chosen criterion and (strictly cheaper, or tied and no worse in every other criterion with one strictly better); candidate selection never returns a beaten candidate; item byte/gas figures equal an independent table for every item name and every operand; totals add exactly the per-block figures.",
-  note=TRUST + "List-level figures use AbstractSeq summaries (map/filter/sum homomorphisms); block-level gas additivity across sub-blocks (warm/cold bookkeeping) is not claimed."),
+  text="For all cost figures: a replacement is accepted only if it is no costlier in the chosen criterion and (strictly cheaper, or tied and no worse in every other criterion with one strictly better); candidate selection never returns a beaten candidate; item byte/gas figures equal an independent table for every item name and every operand; totals add exactly the per-block figures. Bounded: on ~80 blocks x 3 criteria the emitted block costs no more than its input in bytes, instructions and (on sampled states) gas; the -single-json output holds the optimized code. Three inputs on which a costlier block is accepted under the gas criterion are open known findings (F29-F31: acceptance per sub-block with an empty warm set, storage keys compared as unsimplified strings, loads named by their operands only).",
+  note=TRUST + "List-level figures use AbstractSeq summaries (map/filter/sum homomorphisms). The tool's block-level gas figure (AsmBlock.gas_spent with its symbolic warm/cold bookkeeping) is NOT proved equal to real gas - it is not (F29-F31); the end-to-end clause is a bounded stand-in with the gas model of specs/gasmodel.py (empty warm set at block entry, original = current storage value at block entry)."),
  'C09': dict(
   technique="contracts on ids2asm.id_to_asm_bytecode / asm_from_ids (item shape for every instruction kind, canonical hex for all words; VCs from the real AST, z3), the frame clause of the optimize_asm_contract gate, the loop-contract proof of rebuild_optimized_asm_block (see C14) and its bounded shapes, plus a bounded run of the whole tool on synthetic documents checked by an independent reader",
   category='other', ref='DESIGN.md section 4 (C09)',
